@@ -2015,6 +2015,14 @@ def gen_branch_family(rng, quick):
             body = [("let xa = %s;" % SL[tk], False), ("let ya = %s;" % SL[uk], False),
                     ("var s = xa%s;" % SLI.get(tk, "[0 .. 1]"), False), ("s = ya%s;" % SLI.get(uk, "[1 .. 2]").replace("[1 .. 2]", "[1 .. 2]"), True)]
             add("mutant" if tk != uk else "base", "slice-assign", "right-hand-side", tk, uk, "assign", body, "int", "0")
+    # range := range (expr_ass_check_type, range branch): both sides must have the same number of dimensions
+    RG = {"rng1": "[ 0 .. 3 ]", "rng2": "[ 0 .. 2, 0 .. 3 ]", "rng3": "[ 0 .. 1, 0 .. 1, 0 .. 1 ]"}
+    for tk in RG:
+        for uk in RG:
+            body = [("var r = %s;" % RG[tk], False), ("let q = %s;" % RG[uk], False), ("r = q;", True)]
+            add("mutant" if tk != uk else "base", "range-assign", "right-hand-side", tk, uk, "assign", body, "int", "0")
+            body = [("var r = %s;" % RG[tk], False), ("r = %s;" % RG[uk], True)]
+            add("mutant" if tk != uk else "base", "range-assign", "literal-right-hand-side", tk, uk, "assign", body, "int", "0")
     return cases
 
 
